@@ -138,16 +138,19 @@ Section Run.
         | Some (va, m1) => run_code ((x, va) :: r) b m1
         | None => None
         end
-    | KIf c t padt e pade =>
+    | KIf c push0 t pusht padt e pushe =>
         match run_code r c m with
         | Some (vc, m1) =>
+            let m1 := opt_push push0 m1 in
             if (0 <? vc)%Z
             then match run_code r t m1 with
-                 | Some (v, m2) => Some (v, if (0 <? padt)%N then do_push padt m2 else m2)
+                 | Some (v, m2) =>
+                     let m2 := opt_push pusht m2 in
+                     Some (v, if (0 <? padt)%N then do_push padt m2 else m2)
                  | None => None
                  end
             else match run_code r e m1 with
-                 | Some (v, m2) => Some (v, if (0 <? pade)%N then do_push pade m2 else m2)
+                 | Some (v, m2) => Some (v, opt_push pushe m2)
                  | None => None
                  end
         | None => None
